@@ -496,7 +496,22 @@ func (p *Prog) langDefAxiom(name string) (string, []string) {
 		if err != nil {
 			return "", nil
 		}
-		return charSeqAxiom(name, pat), nil
+		if ax := charSeqAxiom(name, pat); ax != "" {
+			return ax, nil
+		}
+		return classShapeAxiom(name, pat), nil
+	}
+	if fn == "lquot" || fn == "rquot" {
+		base, ok := call.Args[0].(*ast.Ident)
+		w, err := litString(call.Args[1])
+		if !ok || err != nil {
+			return "", nil
+		}
+		arg := "(bs_cat " + seqLit(w) + " s)"
+		if fn == "rquot" {
+			arg = "(bs_cat s " + seqLit(w) + ")"
+		}
+		return fmt.Sprintf("(assert (forall ((s BSeq)) (! (= (inlang_%s s) (inlang_%s %s)) :pattern ((inlang_%s s)))))", name, base.Name, arg, name), []string{base.Name}
 	}
 	if fn == "lit" {
 		s, err := litString(call.Args[0])
